@@ -96,7 +96,7 @@ CHECKS = {
     },
     "C13": {
         "level": "exploration",
-        "rule": "(store) rapid-generated state-machine histories on the real ban store over bbolt in a synctest bubble: ban / unban / status / census / clock advance (incl. jumps to just before and after an expiry) / reopen / junk input over 12 textual spellings per address family and symbolic masks, compared with a map model keyed by the canonical (ip, mask); the two bbolt indexes are read back at the end. Non-trivial = a generated status query saw one network both strictly before floor(expiry) and at/after expiry of the same ban, or queried a banned network after a reopen that followed its ban; distinct = distinct case JSON Unit enforce: the real client against 2-6 scripted peers (full service / no witness / no compact filters / neither / provable filter-header liars / invalid-block server; slow handshakes) under connect, drop, clock advances and jumps to just before / at / after a ban's expiry, BanPeer / UnbanPeer API calls and GetBlock; a connection spy records every dial, the client's first write and the instant the client has read the peer's version. After every event at quiescence, against a ban table built by the harness: a peer lacking a service bit is banned with reason NoCompactFilters from the version-read instant for 24h (stored expiry = floor(t+24h)), no banned address is in Peers(), the client never writes on a connection dialled while the address was banned, API bans / unbans take effect at once with the given reason, a lapsed or lifted ban lets a clean peer back in within 12 virtual seconds, an invalid-block sender is banned with InvalidBlock, innocent peers are never banned, IsBanned agrees with a second store on the same database. Non-trivial there = a service-bit ban and (a lapse, a lifting unban or a dial while banned).",
+        "rule": "(store) rapid-generated state-machine histories on the real ban store over bbolt in a synctest bubble: ban / unban / status / census / clock advance (incl. jumps to just before and after an expiry) / reopen / junk input over 12 textual spellings per address family and symbolic masks, compared with a map model keyed by the canonical (ip, mask); the two bbolt indexes are read back at the end. Non-trivial = a generated status query saw one network both strictly before floor(expiry) and at/after expiry of the same ban, or queried a banned network after a reopen that followed its ban; distinct = distinct case JSON Unit enforce: the real client against 2-6 scripted peers (full service / no witness / no compact filters / neither / provable filter-header liars / invalid-block server; slow handshakes) under connect, drop, clock advances and jumps to just before / at / after a ban's expiry, BanPeer / UnbanPeer API calls and GetBlock; a connection spy records every dial, the client's first write and the instant the client has read the peer's version. After every event at quiescence, against a ban table built by the harness: a peer lacking a service bit is banned with reason NoCompactFilters from the version-read instant for 24h (stored expiry = floor(t+24h)), no banned address is in Peers(), the client never writes on a connection dialled while the address was banned, API bans / unbans take effect at once with the given reason, a lapsed or lifted ban lets a clean peer back in within 12 virtual seconds, an invalid-block sender is banned with InvalidBlock, innocent peers are never banned, IsBanned agrees with a second store on the same database. Non-trivial there = a service-bit ban and (a lapse, a lifting unban or a dial while banned). Unit store-concurrent: rounds of 2-4 free-running goroutines with generated operation lists (status / one-hour ban / unban) on one real store whose networks start each round without a record, with a lapsed record no query has removed yet, or with an active ban; operations are stamped at start and end; using real-time order only: no operation fails, the state after the round is that of a write no other write started after, a query that started after an acknowledged ban (no unban in the round) reports banned, reported reasons are reasons of bans of that network. Non-trivial there = a status query overlapped a write on its network.",
         "assumptions": [
             "expiry is stored with one-second granularity: inside [floor(expiry), expiry) either answer is accepted",
             "an IPv4 network written with a 16-byte mask is not generated (API-level representation, not a textual form of an address; production callers pass a nil mask)",
@@ -110,6 +110,9 @@ CHECKS = {
              "tags": "verif", "thorough_only": True,
              "quick": {"fuzztime": "10s", "timeout": 300},
              "thorough": {"fuzztime": "90s", "timeout": 900}},
+            {"name": "store-concurrent", "module": "harness", "pkg": "./checks/c13", "test": "TestC13Concurrent", "tags": "verif",
+             "quick": {"checks": 250, "shards": 8, "timeout": 600},
+             "thorough": {"checks": 8000, "shards": 16, "timeout": 3600, "shrink": "30s"}},
             {"name": "enforce", "module": "harness", "pkg": "./checks/c13", "test": "TestC13Enforce", "tags": "verif",
              "quick": {"checks": 25, "shards": 16, "timeout": 900, "regress_n": 3},
              "thorough": {"checks": 600, "shards": 16, "timeout": 5400, "shrink": "60s", "regress_n": 10}},
@@ -307,12 +310,14 @@ def _race_units():
                 continue
             if u["name"] == "bm-sched" and pid != "C03":
                 continue  # same scenarios as C03's unit
-            if pid == "C13" and u["name"] != "enforce":
+            if pid == "C13" and u["name"] not in ("enforce", "store-concurrent"):
                 continue  # single-threaded state machine / fuzz target
             if pid == "C16" and u["name"] != "stress":
                 continue  # those units order every access through the harness
             if u["name"] in ("verdict", "enforce"):
                 q, th = 4, 14  # network simulations: slow under the detector
+            if u["name"] == "store-concurrent":
+                q, th = 60, 1500
             r = dict(u)
             r["name"] = "race-" + pid.lower() + "-" + u["name"]
             r["race"] = True
